@@ -139,11 +139,16 @@ def parse(raw, ns=None, enclosing="", names=None, top=True):
 
 
 def check_decimal(raw):
+    """exactly the rejections the property lists: negative or non-integer precision or scale,
+    scale above the precision, precision beyond what the fixed size holds (a missing or zero
+    precision is not in that list)"""
     scale = raw.get("scale", 0)
     precision = raw.get("precision")
     if not isinstance(scale, int) or isinstance(scale, bool) or scale < 0:
         raise Invalid("decimal", "scale")
-    if precision is None or not isinstance(precision, int) or isinstance(precision, bool) or precision <= 0:
+    if precision is None:
+        return
+    if not isinstance(precision, int) or isinstance(precision, bool) or precision < 0:
         raise Invalid("decimal", "precision")
     if scale > precision:
         raise Invalid("decimal", "scale > precision")
